@@ -28,7 +28,7 @@ fn is_tuple_fields(fs: &[Field]) -> bool {
     true
 }
 
-static KEYWORDS: [&str; 48] = [
+static KEYWORDS: [&str; 53] = [
     "actor",
     "and",
     "async",
@@ -44,13 +44,16 @@ static KEYWORDS: [&str; 48] = [
     "composite",
     "debug",
     "debug_show",
+    "do",
     "else",
     "false",
+    "finally",
     "flexible",
     "for",
     "from_candid",
     "func",
     "if",
+    "ignore",
     "in",
     "import",
     "module",
@@ -61,6 +64,7 @@ static KEYWORDS: [&str; 48] = [
     "label",
     "let",
     "loop",
+    "persistent",
     "private",
     "public",
     "query",
@@ -72,6 +76,7 @@ static KEYWORDS: [&str; 48] = [
     "try",
     "throw",
     "to_candid",
+    "transient",
     "true",
     "type",
     "var",
